@@ -37,7 +37,7 @@ def main():
                     results[sid] = res
                     continue
             res["applies"] = True
-            for prop in CHECKS.get(sid, [sid]):
+            for prop in CHECKS.get(sid, [sid.split("-")[0]]):
                 rc, out = sh("VERIF_REPO=%s python3 %s/tools/seeded_run.py %s" % (wt, ROOT, prop), cwd=ROOT, timeout=3600)
                 lines = [l for l in out.splitlines() if l.startswith("VIOLATION property=%s " % prop)]
                 verdict = "missed"
@@ -50,7 +50,7 @@ def main():
         res["seconds"] = round(time.time() - t0)
         results[sid] = res
         json.dump(results, open(rp, "w"), indent=1, sort_keys=True)
-    bad = [s for s in ids if not results.get(s, {}).get("applies") or results[s]["checks"].get(CHECKS.get(s, [s])[0], {}).get("verdict") != "caught"]
+    bad = [s for s in ids if not results.get(s, {}).get("applies") or results[s]["checks"].get(CHECKS.get(s, [s.split("-")[0]])[0], {}).get("verdict") != "caught"]
     print("seeded changes not caught with a concrete input by their own property's check:", bad)
     return 1 if bad else 0
 
